@@ -9,6 +9,7 @@ import shutil
 from common import VERIF, Scratch, Undecided, log, run
 
 _cache = {}
+CRASH_KEYS = {"c10_sum": "sum_of_refs"}
 
 
 def search(mode, seed, rounds):
@@ -49,6 +50,10 @@ def _search(mode, seed, rounds, k):
                     done = True
                 elif "key" in rec:
                     hits.setdefault(rec["key"], []).append(rec)
+        if not done and "has overflowed its stack" in out:
+            hits.setdefault(CRASH_KEYS.get(mode, mode), []).append({"key": CRASH_KEYS.get(mode, mode), "case": "the real code aborts: thread has overflowed its stack (unbounded recursion)",
+                                                                   "got": "SIGABRT / stack overflow", "expected": "a value"})
+            done = True
         if not done:
             # a panic inside the real code is itself a witness only if attributable; report as undecided
             errs = "\n".join(l for l in out.splitlines() if l.startswith("error") or "panicked" in l)[:1500]
